@@ -4,10 +4,20 @@
 package main
 
 import (
+	"fmt"
 	"os"
 
 	"verif/internal/fw"
-	_ "verif/internal/props"
+	"verif/internal/props"
 )
 
-func main() { os.Exit(fw.Main(os.Args[1:])) }
+func main() {
+	if len(os.Args) >= 3 && os.Args[1] == "golden-gen" {
+		if err := props.GenGolden(os.Args[2]); err != nil {
+			fmt.Fprintln(os.Stderr, err)
+			os.Exit(1)
+		}
+		return
+	}
+	os.Exit(fw.Main(os.Args[1:]))
+}
